@@ -15,6 +15,11 @@ BIN="$1"; shift
 PHC=0
 if [ "${CBV_NS:-1}" = "1" ]; then
   mount -t tmpfs tmpfs /run || { echo "SETUP-FAILED mount"; exit 3; }
+  # a private /etc (copies of what a dynamically linked program needs), so that a chrony.conf can be put there
+  ETC=0
+  mkdir -p /run/cbv-etc/chrony
+  for f in ld.so.cache ld.so.conf ld.so.conf.d passwd group nsswitch.conf localtime hosts resolv.conf; do [ -e /etc/$f ] && cp -a /etc/$f /run/cbv-etc/ 2>/dev/null; done
+  mount --bind /run/cbv-etc /etc 2>/dev/null && ETC=1
   # a network interface with a PTP hardware clock, as far as the daemon's start-up looks: the PCI slot name
   if mount -t tmpfs tmpfs /sys/class/net 2>/dev/null; then
     mkdir -p /sys/class/net/cbvphc0/device && printf 'DRIVER=ena\nPCI_SLOT_NAME=0000:00:05.0\n' > /sys/class/net/cbvphc0/device/uevent && PHC=1
@@ -39,6 +44,15 @@ wait_pub() {
 while read -r c v; do
   rm -rf /run/clockbound
   if [ "$c" -ge 2 ] && [ "$c" -le 4 ] && [ "$PHC" != "1" ]; then echo "RESULT $c $v SKIPPED"; continue; fi
+  if [ "$c" -ge 7 ] && [ "$ETC" != "1" ]; then echo "RESULT $c $v SKIPPED"; continue; fi
+  if [ "$ETC" = "1" ]; then
+    rm -f /etc/chrony.conf /etc/chrony/chrony.conf
+    if [ "$c" -ge 7 ]; then
+      # a host set up as the README says: chronyd's own configuration carries a maximum clock error
+      printf 'pool pool.ntp.org iburst\nmaxclockerror 50\nmakestep 1.0 3\ndriftfile /var/lib/chrony/drift\n' > /etc/chrony.conf
+      cp /etc/chrony.conf /etc/chrony/chrony.conf
+    fi
+  fi
   prev=0
   if [ "$c" = "5" ] || [ "$c" = "6" ]; then
     # a previous daemon instance with another rate leaves its segment behind
@@ -49,9 +63,9 @@ while read -r c v; do
     case "$res" in DRIFT*) prev=$(od -An -tu2 -j14 -N2 /run/clockbound/shm | tr -d ' ') ;; *) echo "RESULT $c $v SETUP-OF-PREVIOUS-INSTANCE-FAILED"; continue ;; esac
   fi
   case "$c:$v" in
-    0:default|6:default) "$BIN" >/dev/null 2>&1 & ;;
+    0:default|6:default|8:default) "$BIN" >/dev/null 2>&1 & ;;
     4:default) "$BIN" -r PHC0 -i cbvphc0 >/dev/null 2>&1 & ;;
-    0:*|5:*) "$BIN" "--max-drift-rate=$v" >/dev/null 2>&1 & ;;
+    0:*|5:*|7:*) "$BIN" "--max-drift-rate=$v" >/dev/null 2>&1 & ;;
     1:*) "$BIN" -m "$v" >/dev/null 2>&1 & ;;
     2:*) "$BIN" --max-drift-rate "$v" -r PHC0 -i cbvphc0 >/dev/null 2>&1 & ;;
     3:*) "$BIN" -i cbvphc0 -r PHC0 "--max-drift-rate=$v" >/dev/null 2>&1 & ;;
@@ -65,7 +79,7 @@ done
 "#;
 
 /// How the option reaches the daemon (the published value must not depend on it).
-const CONTEXTS: [&str; 7] = [
+const CONTEXTS: [&str; 9] = [
     "--max-drift-rate=V (flag omitted for 'default')",
     "-m V",
     "--max-drift-rate V -r PHC0 -i <interface with a PTP hardware clock>",
@@ -73,6 +87,8 @@ const CONTEXTS: [&str; 7] = [
     "flag omitted, -r PHC0 -i <interface>",
     "--max-drift-rate=V, restarting on the segment left behind by an instance that ran with the default rate",
     "flag omitted, restarting on the segment left behind by an instance that ran with --max-drift-rate=50",
+    "--max-drift-rate=V on a host whose /etc/chrony.conf (and /etc/chrony/chrony.conf) says 'maxclockerror 50'",
+    "flag omitted, on a host whose chrony.conf says 'maxclockerror 50'",
 ];
 
 fn alphabet(tier: Tier) -> Vec<(u8, String)> {
@@ -127,13 +143,13 @@ fn alphabet(tier: Tier) -> Vec<(u8, String)> {
     v.retain(|x| *x <= u32::MAX as u64);
     v.sort();
     v.dedup();
-    let mut out: Vec<(u8, String)> = vec![(0, "default".into()), (4, "default".into()), (6, "default".into())];
+    let mut out: Vec<(u8, String)> = vec![(0, "default".into()), (4, "default".into()), (6, "default".into()), (8, "default".into())];
     out.extend(v.iter().map(|x| (0u8, x.to_string())));
     // the other spellings / companions of the option: the structured values (not the stride sweep)
     boundary.retain(|x| *x <= u32::MAX as u64);
     boundary.sort();
     boundary.dedup();
-    for c in [1u8, 2, 3, 5] {
+    for c in [1u8, 2, 3, 5, 7] {
         out.extend(boundary.iter().map(|x| (c, x.to_string())));
     }
     // clap-level rejects
